@@ -1,4 +1,5 @@
-import FcpptProofs.C03.Acc
+import FcpptProofs.C03.Fuel
+import FcpptProofs.C03.Term
 /-!
 # C03 — `parse_help` answers with the help text exactly when the help switch stands alone
 -/
@@ -35,87 +36,150 @@ theorem useFlag_all_iff (name : String) (sh : Bool) (st : List Arg) (a : Arg) :
   · rintro ⟨rfl, h2⟩
     simp [splitFind, h2]
 
-theorem unitSwitch_long_none {f : Nat} {l lg : String} {st : List Arg} {c : Ctx} (hu : useFlag lg false st = none) :
-    parse (f + 1) (.unitSwitch l none lg) st c = .error (.missing st) := by
-  simp [parse, parseFlag, flagStep, hu]
+/-! ## help switches with a short name -/
 
-theorem unitSwitch_long_some {f : Nat} {l lg : String} {st : List Arg} {c : Ctx} {a : Arg} {st' : List Arg}
-    (hu : useFlag lg false st = some (a, st')) :
-    parse (f + 1) (.unitSwitch l none lg) st c = .ok (st', [(l, .unit)], [(a.1, l)]) := by
-  simp [parse, parseFlag, flagStep, hu]
+def HelpRes.isHelp : HelpRes → Bool
+  | .help _ => true
+  | .result .. => false
 
-private theorem sum_left_ok {f : Nat} {l : String} {a b : OP} {st : List Arg} {c : Ctx} {st1 : List Arg} {r1 : Rec} {lg1 : Log}
-    (h : parse f a st c = .ok (st1, r1, lg1)) :
-    parse (f + 1) (.sum l a b) st c = .ok (st1, [(l, .left (.recd r1))], lg1) := by
-  simp only [parse, h]
+theorem useFlag_none_singleton {name : String} {sh : Bool} {a : Arg} (h : a.2 ≠ flagName name sh) :
+    useFlag name sh [a] = none := by
+  simp [useFlag, splitFind, h]
 
-private theorem sum_left_missing_right_ok {f : Nat} {l : String} {a b : OP} {st : List Arg} {c : Ctx} {m st2 : List Arg} {r2 : Rec} {lg2 : Log}
-    (h : parse f a st c = .error (.missing m)) (hb : parse f b st c = .ok (st2, r2, lg2)) :
-    parse (f + 1) (.sum l a b) st c = .ok (st2, [(l, .right (.recd r2))], lg2) := by
-  simp only [parse, h, hb]
+theorem useFlag_some_singleton {name : String} {sh : Bool} {a : Arg} (h : a.2 = flagName name sh) :
+    useFlag name sh [a] = some (a, []) := by
+  simp [useFlag, splitFind, h]
 
-private theorem sum_left_missing_right_err {f : Nat} {l : String} {a b : OP} {st : List Arg} {c : Ctx} {m : List Arg} {e : PErr}
-    (h : parse f a st c = .error (.missing m)) (hb : parse f b st c = .error e) :
-    parse (f + 1) (.sum l a b) st c = .error (combineErrors (.missing m) e) := by
-  simp only [parse, h, hb]
-
-/-- `parse_help` with a help switch that has only a long name (`default_help_switch`): the answer is the help text
-**iff** the argument vector is exactly `[--<long>]`. -/
-theorem parseHelp_help_iff (f : Nat) (hlg : String) (p : OP) (args : List String) :
-    (∃ x, parseHelp (f + 2) none hlg p args = .ok x ∧ (match x with | .help => True | .result .. => False)) ↔
-      args = [flagName hlg false] := by
-  have hself : useFlag hlg false (index [flagName hlg false]) = some ((0, flagName hlg false), []) :=
-    (useFlag_all_iff _ _ _ _).mpr ⟨by simp [index, List.range_succ], rfl⟩
-  unfold parseHelp parseToEmpty
-  cases hu : useFlag hlg false (index args) with
-  | none =>
-    have hl := unitSwitch_long_none (f := f) (l := "h") (c := (helpSum none hlg p).optionNames) hu
-    constructor
-    · rintro ⟨x, hx, hm⟩
-      cases x with
-      | result r lg => exact hm.elim
-      | help =>
-        exfalso
-        revert hx
-        cases hp : parse (f + 1) p (index args) (helpSum none hlg p).optionNames with
-        | error e =>
-          have := sum_left_missing_right_err (l := "help") hl hp
-          unfold helpSum at this ⊢
-          rw [this]
-          cases e <;> simp [combineErrors]
-        | ok t =>
-          obtain ⟨st2, r2, lg2⟩ := t
-          have := sum_left_missing_right_ok (l := "help") hl hp
-          unfold helpSum at this ⊢
-          rw [this]
-          by_cases he : st2.isEmpty = true <;> simp [he]
-    · intro h
-      subst h
-      rw [hself] at hu
-      cases hu
-  | some t =>
-    obtain ⟨a, st'⟩ := t
-    have hl := unitSwitch_long_some (f := f) (l := "h") (c := (helpSum none hlg p).optionNames) hu
-    have hs := sum_left_ok (l := "help") (b := p) hl
-    unfold helpSum at hs ⊢
-    rw [hs]
-    constructor
-    · rintro ⟨x, hx, hm⟩
-      cases x with
-      | result r lg => exact hm.elim
-      | help =>
-        cases st' with
-        | cons b r => simp at hx
-        | nil =>
+/-- a `unit_switch` succeeds and leaves nothing behind **iff** the state is exactly one token, one of its two names -/
+theorem unitSwitch_ok_nil_iff (f : Nat) (l : String) (sh : Option String) (lg : String) (st : List Arg) (c : Ctx) :
+    (∃ r log, parse (f + 1) (.unitSwitch l sh lg) st c = .ok ([], r, log)) ↔
+      ∃ a, st = [a] ∧ (a.2 = flagName lg false ∨ ∃ s, sh = some s ∧ a.2 = flagName s true) := by
+  rw [parse_unitSwitch_eq]
+  constructor
+  · rintro ⟨r, log, h⟩
+    cases sh with
+    | none =>
+      simp only [parseFlag, flagStep] at h
+      cases hu : useFlag lg false st with
+      | none => simp [hu] at h
+      | some t =>
+        obtain ⟨a, st1⟩ := t
+        simp [hu] at h
+        obtain ⟨rfl, _, _⟩ := h
+        obtain ⟨h1, h2⟩ := (useFlag_all_iff _ _ _ _).mp hu
+        exact ⟨a, h1, .inl h2⟩
+    | some s =>
+      simp only [parseFlag, flagStep] at h
+      cases hu : useFlag lg false st with
+      | none =>
+        simp only [hu] at h
+        cases hu2 : useFlag s true st with
+        | none => simp [hu2] at h
+        | some t =>
+          obtain ⟨a, st1⟩ := t
+          simp [hu2] at h
+          obtain ⟨rfl, _, _⟩ := h
+          obtain ⟨h1, h2⟩ := (useFlag_all_iff _ _ _ _).mp hu2
+          exact ⟨a, h1, .inr ⟨s, rfl, h2⟩⟩
+      | some t =>
+        obtain ⟨a, st1⟩ := t
+        simp only [hu] at h
+        cases hu2 : useFlag s true st1 with
+        | some t2 => simp [hu2] at h
+        | none =>
+          simp [hu2] at h
+          obtain ⟨rfl, _, _⟩ := h
           obtain ⟨h1, h2⟩ := (useFlag_all_iff _ _ _ _).mp hu
-          obtain ⟨h3, _⟩ := (index_singleton_iff _ _).mp h1
-          rw [h3, h2]
-    · intro h
-      subst h
-      rw [hself] at hu
-      injection hu with hu
-      injection hu with h1 h2
-      subst h1 h2
-      exact ⟨.help, by simp, trivial⟩
+          exact ⟨a, h1, .inl h2⟩
+  · rintro ⟨a, rfl, h⟩
+    have hnil : ∀ (n : String) (b : Bool), useFlag n b [] = none := fun n b => by simp [useFlag, splitFind]
+    by_cases hl : a.2 = flagName lg false
+    · have hu := useFlag_some_singleton (sh := false) hl
+      cases sh with
+      | none => exact ⟨[(l, .unit)], [(a.1, l)], by simp [parseFlag, flagStep, hu]⟩
+      | some s => exact ⟨[(l, .unit)], [(a.1, l)], by simp [parseFlag, flagStep, hu, hnil]⟩
+    · have hu := useFlag_none_singleton (sh := false) hl
+      rcases h with h | ⟨s, rfl, hs⟩
+      · exact absurd h hl
+      · have hu2 := useFlag_some_singleton (sh := true) hs
+        exact ⟨[(l, .unit)], [(a.1, l)], by simp [parseFlag, flagStep, hu, hu2]⟩
+
+theorem unitSwitch_ne_diverge (f : Nat) (l : String) (sh : Option String) (lg : String) (st : List Arg) (c : Ctx) :
+    parse (f + 1) (.unitSwitch l sh lg) st c ≠ .error .diverge := by
+  rw [parse_unitSwitch_eq]
+  split
+  · rename_i e he; intro h; injection h with h; subst h; exact parseFlag_ne_diverge _ _ _ _ _ _ he
+  · split <;> simp
+
+/-- the record of a successful `unit_switch` -/
+theorem unitSwitch_ok_rec {f : Nat} {l : String} {sh : Option String} {lg : String} {st st' : List Arg} {c : Ctx} {r : Rec} {log : Log}
+    (h : parse (f + 1) (.unitSwitch l sh lg) st c = .ok (st', r, log)) : r = [(l, .unit)] := by
+  rw [parse_unitSwitch_eq] at h
+  split at h
+  · cases h
+  · split at h
+    · simp at h; exact h.2.1.symm
+    · cases h
+
+/-- `parse_help` answers with the help text **iff** the help switch's own parser succeeds on the whole vector and leaves nothing -/
+theorem parseHelp_help_iff_switch (f : Nat) (hsh : Option String) (hlg : String) (p : OP) (args : List String) :
+    (∃ x, parseHelp (f + 2) hsh hlg p args = .ok x ∧ x.isHelp = true) ↔
+      ∃ r log, parse (f + 1) (.unitSwitch "h" hsh hlg) (index args) (helpSum hsh hlg p).optionNames = .ok ([], r, log) := by
+  unfold parseHelp parseToEmpty
+  have hsum := parse_sum_eq (f + 1) "help" (.unitSwitch "h" hsh hlg) p (index args) (helpSum hsh hlg p).optionNames
+  have hnd := unitSwitch_ne_diverge f "h" hsh hlg (index args) (helpSum hsh hlg p).optionNames
+  unfold helpSum at hsum hnd ⊢
+  rw [hsum]
+  cases hu : parse (f + 1) (.unitSwitch "h" hsh hlg) (index args) (OP.sum "help" (.unitSwitch "h" hsh hlg) p).optionNames with
+  | ok t =>
+    obtain ⟨st', r, lg⟩ := t
+    have hr := unitSwitch_ok_rec hu
+    subst hr
+    cases st' with
+    | nil => simp [HelpRes.isHelp]
+    | cons b rest => simp
+  | error e =>
+    have he : e ≠ .diverge := fun hd => hnd (by rw [hu, hd])
+    constructor
+    · rintro ⟨x, hx, hm⟩
+      exfalso
+      revert hx
+      cases e with
+      | diverge => exact absurd rfl he
+      | other =>
+        simp only
+        cases hp : parse (f + 1) p (index args) (OP.sum "help" (.unitSwitch "h" hsh hlg) p).optionNames with
+        | error e2 => cases e2 <;> simp [combineErrors]
+        | ok t2 =>
+          obtain ⟨st2, r2, lg2⟩ := t2
+          by_cases hem : st2.isEmpty = true
+          · simp only [hem, if_true]; intro hx; injection hx with hx; subst hx; simp [HelpRes.isHelp] at hm
+          · simp [hem]
+      | missing m =>
+        simp only
+        cases hp : parse (f + 1) p (index args) (OP.sum "help" (.unitSwitch "h" hsh hlg) p).optionNames with
+        | error e2 => cases e2 <;> simp [combineErrors]
+        | ok t2 =>
+          obtain ⟨st2, r2, lg2⟩ := t2
+          by_cases hem : st2.isEmpty = true
+          · simp only [hem, if_true]; intro hx; injection hx with hx; subst hx; simp [HelpRes.isHelp] at hm
+          · simp [hem]
+    · rintro ⟨r, log, h⟩; cases h
+
+/-- **`parse_help`, any help switch**: the answer is the help text iff the argument vector is exactly the switch:
+`[--<long>]` or `[-<short>]` -/
+theorem parseHelp_help_iff_any (f : Nat) (hsh : Option String) (hlg : String) (p : OP) (args : List String) :
+    (∃ x, parseHelp (f + 2) hsh hlg p args = .ok x ∧ x.isHelp = true) ↔
+      args = [flagName hlg false] ∨ ∃ s, hsh = some s ∧ args = [flagName s true] := by
+  rw [parseHelp_help_iff_switch, unitSwitch_ok_nil_iff]
+  constructor
+  · rintro ⟨a, ha, h⟩
+    obtain ⟨h1, _⟩ := (index_singleton_iff _ _).mp ha
+    rcases h with h | ⟨s, hs, h⟩
+    · exact .inl (by rw [h1, h])
+    · exact .inr ⟨s, hs, by rw [h1, h]⟩
+  · rintro (h | ⟨s, hs, h⟩)
+    · exact ⟨(0, flagName hlg false), (index_singleton_iff _ _).mpr ⟨h, rfl⟩, .inl rfl⟩
+    · exact ⟨(0, flagName s true), (index_singleton_iff _ _).mpr ⟨h, rfl⟩, .inr ⟨s, hs, rfl⟩⟩
 
 end Fcppt.C03
